@@ -53,6 +53,7 @@ def errStr : Err → String
   | .hdrData => "ERR:HeaderDataError"
   | .mgh => "ERR:MGHError"
   | .key => "ERR:KeyError"
+  | .type => "ERR:TypeError"
   | .unmodelled => "ERR:unmodelled"
 
 def parseBool? (s : String) : Option Bool :=
